@@ -73,6 +73,7 @@ type sessOp struct {
 	start    time.Time
 	end      time.Time
 	panicked string
+	getErr   bool // an injected storage Get error hit this request
 }
 
 type sessObs struct {
@@ -93,6 +94,8 @@ func sessionMain(s *simrt.Sim, info *harness.RunInfo) {
 		abs = idle + time.Duration(s.Range(3, 8))*time.Second
 	}
 	concurrent := s.Chance(400)
+	faults := s.Chance(250)
+	info.Faults = faults
 	nclients := s.Range(2, harness.Scale(4, 6))
 	preempt := 0
 	if concurrent {
@@ -119,15 +122,28 @@ func sessionMain(s *simrt.Sim, info *harness.RunInfo) {
 			return id
 		},
 	}
+	if faults {
+		useSim = true
+	}
+	var guard *harness.KeyGuard
 	if useSim {
 		st := harness.NewSimStorage(s, "session-store")
 		st.HideSizes = true
-		cfg.Storage = st
+		if faults {
+			st.FailGet = simrt.PickS(s, 80, 200)
+			st.OnFault = func(string) {
+				if op := opOfTask[simrt.TaskID()]; op != nil {
+					op.getErr = true
+				}
+			}
+		}
+		guard = harness.NewKeyGuard(s, st, "C15.storage-key-aliases-request-buffer")
 	} else {
-		cfg.Storage = simexport.NewMemoryStorage()
+		guard = harness.NewKeyGuard(s, simexport.NewMemoryStorage(), "C15.storage-key-aliases-request-buffer")
 	}
-	cfgLine := fmt.Sprintf("source=%s storage=%s idle=%v abs=%v concurrent=%v clients=%d preempt=%d", source,
-		map[bool]string{false: "storage-memory", true: "sim"}[useSim], idle, abs, concurrent, nclients, preempt)
+	cfg.Storage = guard
+	cfgLine := fmt.Sprintf("source=%s storage=%s idle=%v abs=%v concurrent=%v clients=%d preempt=%d faults=%v", source,
+		map[bool]string{false: "storage-memory", true: "sim"}[useSim], idle, abs, concurrent, nclients, preempt, faults)
 	s.Logf("cfg %s", cfgLine)
 
 	mw, store := session.NewWithStore(cfg)
@@ -182,6 +198,12 @@ func sessionMain(s *simrt.Sim, info *harness.RunInfo) {
 				}
 			case "idle":
 				sess.SetIdleTimeout(st.d)
+			case "save":
+				if m == nil {
+					if err := sess.Save(); err != nil {
+						return err
+					}
+				}
 			}
 		}
 		return nil
@@ -335,6 +357,7 @@ func sessionMain(s *simrt.Sim, info *harness.RunInfo) {
 	var modelMu sync.Mutex // documentation only: one task runs at a time
 	_ = &modelMu
 	staleUsed, outlived := 0, 0
+	stopped := false
 	h := newHasher().str(cfgLine)
 
 	// one request: generate, execute, check against the model, update the model
@@ -394,12 +417,15 @@ func sessionMain(s *simrt.Sim, info *harness.RunInfo) {
 					op.prog = append(op.prog, sessStep{kind: "destroy"})
 					i = n
 				}
+				if op.route == "store" && s.Chance(300) {
+					op.prog = append(op.prog, sessStep{kind: "save"}) // several operations inside one request
+				}
 			}
 			if op.route == "byid" {
 				// GetByID has no request context: keep to data operations
 				var p []sessStep
 				for _, st := range op.prog {
-					if st.kind == "set" || st.kind == "del" || st.kind == "destroy" {
+					if st.kind == "set" || st.kind == "del" || st.kind == "destroy" || st.kind == "save" {
 						p = append(p, st)
 					}
 				}
@@ -436,6 +462,19 @@ func sessionMain(s *simrt.Sim, info *harness.RunInfo) {
 		}()
 		op.end = time.Now()
 		delete(opOfTask, simrt.TaskID())
+		if op.getErr {
+			// an injected storage error: the request may fail in any way (the middleware
+			// panics), but it must not run under the id the client chose
+			s.Count("fault_session_get_error_requests")
+			if op.panicked == "" && resp != nil {
+				_ = json.Unmarshal(resp.Body, &op.obs)
+				if op.obs.ID != "" && op.obs.ID == op.present && status(op.present, op.start) == dead {
+					s.Fail("C15.adopted-client-id", "op%d: the storage lookup failed and the session runs under the presented id %q, which the server does not hold", op.id, op.present)
+				}
+			}
+			stopped = true // the model cannot follow a request that failed half-way
+			return
+		}
 		if op.panicked != "" {
 			s.Fail("C15.panic", "op%d %s: %s", op.id, op.route, op.panicked)
 			return
@@ -458,6 +497,7 @@ func sessionMain(s *simrt.Sim, info *harness.RunInfo) {
 			}
 		}
 		s.Logf("op%d ret status=%d obs=%+v emitted=%q gen=%v", op.id, op.status, op.obs, op.emitted, op.genIDs)
+		guard.Check(fmt.Sprintf("after op%d", op.id))
 		if op.presKind == "stale" || op.presKind == "forged" {
 			staleUsed++
 		}
@@ -504,6 +544,12 @@ func sessionMain(s *simrt.Sim, info *harness.RunInfo) {
 			// apply the program to the model
 			wasLive := isLive
 			curID := op.obs.ID
+			gi := 0 // next unused id of those generated in this request
+			for k, g := range op.genIDs {
+				if g == curID {
+					gi = k + 1
+				}
+			}
 			var cur *sessModel
 			if wasLive {
 				cur = &sessModel{data: copyData(mstate.data), absUntil: mstate.absUntil}
@@ -518,9 +564,26 @@ func sessionMain(s *simrt.Sim, info *harness.RunInfo) {
 					delete(live, op.present)
 				}
 			}
+			nextID := func() (string, bool) {
+				if gi >= len(op.genIDs) {
+					return "", false
+				}
+				gi++
+				return op.genIDs[gi-1], true
+			}
 			idleFor := idle
 			destroyed := false
+			expectEmit := "" // "" nothing handed out, "-" expired, otherwise the id
+			saveNow := func() {
+				cp := &sessModel{data: copyData(cur.data), absUntil: cur.absUntil, idleUntil: op.end.Add(idleFor)}
+				live[curID] = cp
+				expectEmit = curID
+			}
 			for _, st := range op.prog {
+				if destroyed {
+					break
+				}
+				ok := true
 				switch st.kind {
 				case "set":
 					cur.data[st.k] = st.v
@@ -528,9 +591,14 @@ func sessionMain(s *simrt.Sim, info *harness.RunInfo) {
 					delete(cur.data, st.k)
 				case "idle":
 					idleFor = st.d
+				case "save":
+					if op.route == "store" {
+						saveNow()
+					}
 				case "destroy":
 					delete(live, curID)
 					destroyed = true
+					expectEmit = "-"
 				case "reset":
 					delete(live, curID)
 					cur = &sessModel{data: map[string]string{}}
@@ -538,51 +606,62 @@ func sessionMain(s *simrt.Sim, info *harness.RunInfo) {
 						cur.absUntil = op.start.Add(abs)
 					}
 					idleFor = idle
-					curID = "" // new id, read from the observation below
+					expectEmit = "-"
+					curID, ok = nextID()
 				case "regen":
 					delete(live, curID)
-					curID = ""
+					curID, ok = nextID()
 				}
-			}
-			if curID == "" {
-				curID = op.obs.EndID
-				if !gen[curID] || curID == op.present {
-					s.Fail("C15.new-id", "op%d: after Reset/Regenerate the session id is %q, not an id generated in this request (%v)", op.id, curID, op.genIDs)
+				if !ok {
+					s.Fail("C15.new-id", "op%d: Reset/Regenerate did not generate a new session id (generated in this request: %v)", op.id, op.genIDs)
 					return
 				}
 			}
-			saved := !destroyed && (op.route == "mw" || op.save)
-			if saved {
-				cur.idleUntil = op.end.Add(idleFor)
-				live[curID] = cur
+			if curID != op.obs.EndID && !destroyed {
+				s.Fail("C15.new-id", "op%d: the session id after the program is %q, expected %q (ids generated in this request: %v)", op.id, op.obs.EndID, curID, op.genIDs)
+				return
+			}
+			if !destroyed && (op.route == "mw" || op.save) {
+				saveNow()
 			}
 			// what the client was told
 			cs := clients[ci]
 			switch {
-			case destroyed:
-				if op.emitted != "-" && op.emitted != "" && source != "header" {
-					s.Fail("C15.destroy-cookie", "op%d destroyed the session but the response hands out id %q", op.id, op.emitted)
-				}
-				if cs.current != "" {
-					cs.stale = append(cs.stale, cs.current)
-				}
-				if op.present != "" && op.present != cs.current {
-					cs.stale = append(cs.stale, op.present)
-				}
-				cs.current = ""
-			case saved:
-				if op.emitted != curID {
-					s.Fail("C15.emitted-id", "op%d saved the session under %q but the response hands out %q", op.id, curID, op.emitted)
+			case source == "header":
+				if expectEmit != "" && expectEmit != "-" && op.emitted != expectEmit {
+					s.Fail("C15.emitted-id", "op%d saved the session under %q but the response header hands out %q", op.id, expectEmit, op.emitted)
 					return
 				}
-				if cs.current != "" && cs.current != curID {
-					cs.stale = append(cs.stale, cs.current)
+			case op.emitted != expectEmit:
+				if expectEmit == "-" {
+					s.Fail("C15.destroy-cookie", "op%d destroyed / reset the session without saving a new one, but the response hands out id %q", op.id, op.emitted)
+				} else {
+					s.Fail("C15.emitted-id", "op%d: the response hands out %q, the session was last saved under %q", op.id, op.emitted, expectEmit)
 				}
-				if op.present != "" && op.present != curID {
-					cs.stale = append(cs.stale, op.present)
+				return
+			}
+			remember := func(id string) {
+				if id != "" {
+					cs.stale = append(cs.stale, id)
+				}
+			}
+			switch expectEmit {
+			case "":
+			case "-":
+				remember(cs.current)
+				if op.present != cs.current {
+					remember(op.present)
+				}
+				cs.current = ""
+			default:
+				if cs.current != expectEmit {
+					remember(cs.current)
+				}
+				if op.present != expectEmit && op.present != cs.current {
+					remember(op.present)
 				}
 				if op.presKind != "other" {
-					cs.current = curID
+					cs.current = expectEmit
 				}
 			}
 		case "byid":
@@ -658,7 +737,7 @@ func sessionMain(s *simrt.Sim, info *harness.RunInfo) {
 				defer wg.Done()
 				conn := harness.NewConn(app, "10.0.0."+strconv.Itoa(ci+1))
 				for _, th := range plan {
-					if s.Failed() {
+					if s.Failed() || stopped {
 						return
 					}
 					simrt.Sleep(th)
@@ -673,7 +752,7 @@ func sessionMain(s *simrt.Sim, info *harness.RunInfo) {
 			conns[i] = harness.NewConn(app, "10.0.0."+strconv.Itoa(i+1))
 		}
 		n := s.Range(4, harness.Scale(24, 48))
-		for i := 0; i < n && !s.Failed(); i++ {
+		for i := 0; i < n && !s.Failed() && !stopped; i++ {
 			simrt.Sleep(thinks[s.Draw(len(thinks))])
 			ci := s.Draw(nclients)
 			doRequest(ci, conns[ci])
